@@ -1,0 +1,11 @@
+//go:build !verif
+// +build !verif
+
+package wal
+
+import (
+	badger "github.com/dgraph-io/badger/v2"
+	uuid "github.com/satori/go.uuid"
+)
+
+func verifIO(db *badger.DB, group uuid.UUID, op string, before bool) error { return nil }
